@@ -157,7 +157,7 @@ Section WithTable.
   Definition unix_prefix : bytes := bs "unix:".
   Definition localhost : bytes := bs "127.0.0.1".
   Definition socks_expect (line : bytes) : option sockres :=
-    if prefixb unix_prefix line then Some (SockUnix (skipn 5 line))
+    if prefixb unix_prefix line then Some (SockUnix (skipn 5 (first_token line)))
     else
       let t := first_token line in
       match split_on COLON t with
@@ -165,6 +165,20 @@ Section WithTable.
       | [h; p] => option_map (fun n => SockTcp h n) (parse_nat p)
       | _ => None
       end.
+
+  (* the entry a client should use: the first one that names a listener ("0" = SOCKS disabled;
+     a line whose port is not a number, e.g. "auto", cannot be connected to) *)
+  Fixpoint first_usable (lines : list atom) : option sockres :=
+    match lines with
+    | [] => None
+    | AStr line :: rest =>
+        if beqb (first_token line) [ch 48] then first_usable rest
+        else match socks_expect line with
+             | Some e => Some e
+             | None => first_usable rest
+             end
+    | _ :: rest => first_usable rest
+    end.
 
   Definition SocksPort_name : bytes := bs "SocksPort".
 
@@ -241,14 +255,13 @@ Section WithTable.
         match dfind_ci SocksPort_name opts with
         | Some (cn, k) =>
             if dmem cn (s_pend st) then true else
-            match view_list st cn k, o_res ob with
-            | [], XSocks (SockExc _) => true
-            | AStr line :: _, XSocks r =>
-                match socks_expect line with
+            match o_res ob with
+            | XSocks r =>
+                match first_usable (view_list st cn k) with
                 | Some e => sockres_eqb r e
-                | None => match r with SockExc _ => true | _ => false end   (* not a port line: an error *)
+                | None => match r with SockExc _ => true | _ => false end   (* nothing usable: an error *)
                 end
-            | _, _ => false
+            | _ => false
             end
         | None => false
         end
@@ -336,7 +349,8 @@ Definition lop_ok (k : kind) (o : lop) : bool :=
   end.
 
 Definition reserved_names : list bytes :=
-  [bs "HiddenServiceOptions"; bs "HiddenServices"; bs "EphemeralOnionServices"; bs "DetachedOnionServices"].
+  [bs "HiddenServiceOptions"; bs "HiddenServices"; bs "EphemeralOnionServices"; bs "DetachedOnionServices";
+   bs "OK"].
 
 Definition table_ok (table : list (bytes * bytes)) : bool :=
   forallb (fun r : bytes * bytes =>
@@ -344,7 +358,7 @@ Definition table_ok (table : list (bytes * bytes)) : bool :=
              && negb (mem_ci (fst r) reserved_names)) table
   && nodup_ci (map fst table)
   && nodup_ci (map fst (options table))
-  && forallb (fun o : bytes * kind => negb (mem_ci (fst o) reserved_names)) (options table).
+  && forallb (fun o : bytes * kind => negb (mem_ci (fst o) reserved_names) && name_ok (fst o)) (options table).
 
 (* values Tor can hold for an option of kind k *)
 Definition tor_values_ok (k : kind) (vals : list bytes) : bool :=
@@ -402,7 +416,7 @@ Definition event_item_ok (opts : list (bytes * kind)) (items : list (bytes * opt
       beqb cn (fst it) &&
       match snd it with
       | Some v => tor_value_ok v
-      | None => true
+      | None => is_nil (values_of_key (fst it) items)     (* an option is announced as unset OR with values *)
       end
       && tor_values_ok k (values_of_key (fst it) items)
   end.
